@@ -4,6 +4,7 @@ import (
 	"crypto/aes"
 	"crypto/cipher"
 	"crypto/rand"
+	"errors"
 	"io"
 	"os"
 
@@ -25,6 +26,11 @@ const (
 var (
 	masterKeyVarName = "LIFTBRIDGE_ENCRYPTION_KEY"
 )
+
+// ErrMalformedData is returned when encrypted data is too short to contain
+// the wrapped key and nonce it is expected to, e.g. because it was truncated
+// or tampered with.
+var ErrMalformedData = errors.New("malformed encrypted data")
 
 // LocalEncryptionHandler provides functionalities to load secret key
 // from environment variables
@@ -123,6 +129,9 @@ func (handler *LocalEncryptionHandler) decryptData(dek []byte, encryptedData []b
 
 	// get nonce
 	nonceSize := gcm.NonceSize()
+	if len(encryptedData) < nonceSize {
+		return nil, ErrMalformedData
+	}
 	nonce, ciphertext := encryptedData[:nonceSize], encryptedData[nonceSize:]
 
 	// decrypt the data
@@ -197,8 +206,14 @@ func (handler *LocalEncryptionHandler) Seal(data []byte) ([]byte, error) {
 
 func (handler *LocalEncryptionHandler) Read(encryptedData []byte) ([]byte, error) {
 	// Decompose wrapped key and cypher text
+	if len(encryptedData) == 0 {
+		return nil, ErrMalformedData
+	}
 	keySize := int(encryptedData[0])
 	keyEndPos := keySize + 1
+	if keyEndPos > len(encryptedData) {
+		return nil, ErrMalformedData
+	}
 	wrappedDEK := encryptedData[1:keyEndPos]
 
 	ciphertext := encryptedData[keyEndPos:]
